@@ -304,3 +304,25 @@ func Score(kind string, mode int, score uint64) uint64 {
 	}
 	return score
 }
+
+// Forced reports whether the decision `name` is overridden (SetChoice with
+// "prefer" = take the alternative, "avoid" = do not, "random" = toss the
+// seeded coin) and, if so, which way.
+func Forced(name string) (value, forced bool) {
+	m, ok := choiceModes.Load(name)
+	if !ok {
+		return false, false
+	}
+	switch m.(string) {
+	case "prefer":
+		return true, true
+	case "avoid":
+		return false, true
+	case "random":
+		choiceMu.Lock()
+		heads := choiceRng.Intn(2) == 0
+		choiceMu.Unlock()
+		return heads, true
+	}
+	return false, false
+}
